@@ -40,7 +40,7 @@ KERNEL = {   # theorem-name prefix -> kernel name in kernel-specification.yml
     'BitMasked_to_ByteMasked': 'awkward_BitMaskedArray_to_ByteMaskedArray',
     'ListArray_fill': 'awkward_ListArray_fill', 'unique': 'awkward_unique',
     'reduce_countnonzero': 'awkward_reduce_countnonzero', 'reduce_max': 'awkward_reduce_max', 'reduce_min': 'awkward_reduce_min',
-    'reduce_prod': 'awkward_reduce_prod', 'reduce_generic': 'awkward_reduce_sum', 'reduce_argmax': 'awkward_reduce_argmax', 'reduce_argmin': 'awkward_reduce_argmin',
+    'NumpyArray_copy': 'awkward_NumpyArray_copy', 'reduce_prod': 'awkward_reduce_prod', 'reduce_generic': 'awkward_reduce_sum', 'reduce_argmax': 'awkward_reduce_argmax', 'reduce_argmin': 'awkward_reduce_argmin',
 }
 import sys
 files = sys.argv[1:] or ['Proofs_C13.v']
